@@ -232,10 +232,17 @@ func oversizedHashRule(P *Program, R *Report) {
 			if !ok || !calleeIs(call, "common.IntHashSha256") {
 				continue
 			}
+			// (a use of the function as plain "SHA-256 as integer" of an encoder's output is the challenge digest,
+			// decided by C02.b/C15.a, not an attribute replacement)
+			if ex, isEx := origin(call.Call.Args[0]).(*ssa.Extract); isEx && ex.Index == 0 {
+				if m, isM := ex.Tuple.(*ssa.Call); isM && isCallTo(m, "encoding/asn1.Marshal") {
+					continue
+				}
+			}
 			R.seen(FuncKey(fn))
 			s := site{fn: fn, call: call}
 			// the hashed bytes must be x.Bytes()
-			arg := call.Call.Args[0]
+			arg := origin(call.Call.Args[0])
 			bc, isCall := arg.(*ssa.Call)
 			if !isCall || bigMethod(bc) != "Bytes" {
 				s.why = "hash input is not x.Bytes()"
